@@ -1,12 +1,14 @@
 package zap
 
 import (
+	index "github.com/blevesearch/bleve_index_api"
 	segment "github.com/blevesearch/scorch_segment_api/v2"
 )
 
 func init() {
 	vRegister("H10_syn", H10_syn)
 	vRegister("H10_after", H10_after)
+	vRegister("H10_grow", H10_grow)
 }
 
 // H10_syn: two synonym batches built one after the other on the pooled builder (the pool model hands the
@@ -77,4 +79,38 @@ func H10_after() {
 		sCheckPostings(segs[i], specs[i], "later-")
 		sCheckDocValues(segs[i], specs[i], []int{1, 0}, "later-")
 	}
+}
+
+// H10_grow: two plain batches of independently chosen sizes (documents x terms x locations per term) built one
+// after the other on the pooled builder: the backing arrays of the inverted section (postings, freq/norm,
+// locations) are reused when large enough and re-allocated otherwise - every "grow" and "fits" combination
+// of the three dimensions occurs. The second segment answers exactly as its batch dictates.
+func H10_grow() {
+	var z ZapPlugin
+	alphabet := []string{"a", "b", "c"}
+	mk := func(prefix string) ([]index.Document, *sSpec) {
+		nDocs := 1 + vChoice(prefix+"docs", 3)
+		nTerms := 1 + vChoice(prefix+"terms", 3)
+		nLocs := vChoice(prefix+"locs", vParam("maxLocs", 4))
+		return vGenBatchFixed(gCfg{prefix: prefix, idBase: prefix, nDocs: nDocs, wide: -1, noFx: true,
+			fields: []gField{
+				{name: "f", terms: alphabet[:nTerms], tv: nLocs > 0, maxLocs: nLocs, fixLocs: true, dv: true, store: true, fixFreq: true},
+			}})
+	}
+	aDocs, asp := mk("a")
+	aseg, _, err := z.newWithChunkMode(aDocs, DefaultChunkMode)
+	vAssert(err == nil, "a-build")
+	sCheckPostings(aseg, asp, "a-")
+	bDocs, bsp := mk("b")
+	bseg, _, err := z.newWithChunkMode(bDocs, DefaultChunkMode)
+	vAssert(err == nil, "b-build")
+	sCheckStored(bseg, bsp, "b-")
+	sCheckPostings(bseg, bsp, "b-")
+	order := []int{}
+	for d := range bDocs {
+		order = append(order, d)
+	}
+	sCheckDocValues(bseg, bsp, order, "b-")
+	// and the first segment is still what it was
+	sCheckPostings(aseg, asp, "a-later-")
 }
